@@ -29,10 +29,15 @@ pub fn hermetic<T: Send>(f: impl FnOnce() -> T + Send) -> T {
     })
 }
 
+/// run indices from here on are supplementary runs (see `Profile::supp`)
+pub const SUPP_BASE: u64 = 1 << 40;
+
 pub fn run_one(verif_seed: u64, prop: usize, fi: bool, idx: u64) -> RunOut {
     hermetic(|| {
         let seed = run_seed(verif_seed, prop, fi, idx);
-        let w = World::new(seed, profile_for(prop, fi), armed_for(prop));
+        let mut prof = profile_for(prop, fi);
+        prof.supp = idx >= SUPP_BASE;
+        let w = World::new(seed, prof, armed_for(prop));
         w.run()
     })
 }
